@@ -98,12 +98,15 @@ def impl_init():
     DATABASE.load()
     empties = [Database(), U.load_db("[tcp:request]\nlabel = s:unix:Linux:3.11 and newer\n[tcp:response]\nlabel = s:unix:Linux:3.x\n[mtu]\nlabel = Ethernet or modem\n")]
 
+    LONG = Database()
+
     def impl(c):
         # in one case of 25 the file is loaded into the PROCESS-WIDE database (pyp0f.database.DATABASE, as scripts do) and the impersonation calls leave
         # their `database` argument out: the default IS that object
         use_default = (len(c["lines"]) * 7 + len(c["queries"])) % 25 == 0
         try:
-            db = U.load_db("\n".join(c["lines"]) + "\n", db=DATABASE if use_default else None)
+            # (a third of the cases load into ONE long-lived Database object that has held other files before: what it answers is the file loaded last)
+            db = U.load_db("\n".join(c["lines"]) + "\n", db=DATABASE if use_default else (LONG if len(c["lines"]) % 3 == 1 else None))
         except DatabaseError as e:
             return {"dberr": {"err": type(e).__name__, "line": getattr(e, "line_number", None)}}
         try:
